@@ -1,6 +1,6 @@
 SPECIFICATION Spec
 CONSTANTS
-  Lits <- LitsQuick
+  Lits <- Lits2
   Ops = {"+", "*"}
   Forms = {"lit", "ref", "neg", "rl", "lr"}
   Kinds = {"enumE", "enumI", "const", "constexpr", "macroP", "macroB", "array"}
